@@ -459,6 +459,35 @@ fn main() {
             run.eval();
             let (steps, nbuckets) = drive(&bypass, &reqs, exact, &mut notes);
             oracle(&mut run, &id, &bypass, &reqs, &steps);
+            // isolation oracle (C17_hosts_are_isolated) on the implementation's own answers:
+            // the answers to one host and its bucket are those of the timeline with
+            // every other host's call deleted
+            if exact {
+                let hosts: std::collections::BTreeSet<Host> = reqs.iter().map(|q| q.host.clone()).collect();
+                if hosts.len() > 1 {
+                    for h in &hosts {
+                        let only: Vec<Req> = reqs.iter().filter(|q| &q.host == h).cloned().collect();
+                        let mut scratch = vec![];
+                        let (alone, _) = drive(&bypass, &only, exact, &mut scratch);
+                        let mixed: Vec<(u64, Option<(i128, u64)>)> = reqs
+                            .iter()
+                            .zip(&steps)
+                            .filter(|(q, _)| &q.host == h)
+                            .map(|(_, s)| (s.code, s.view))
+                            .collect();
+                        let alone: Vec<(u64, Option<(i128, u64)>)> = alone.iter().map(|s| (s.code, s.view)).collect();
+                        run.tally("isolation-host-compared");
+                        if mixed != alone {
+                            run.fail(
+                                &id,
+                                "host-not-isolated",
+                                format!("answers/bucket of host {} differ when the other hosts' calls are deleted: {:?} vs {:?}", h.show(), mixed, alone),
+                                input_json(&bypass, &reqs),
+                            );
+                        }
+                    }
+                }
+            }
             let bypass_n: Vec<u64> = bypass.iter().map(|b| *b as u64).collect();
             if exact {
                 tally_shapes(&mut run, &reqs, &steps);
